@@ -19,7 +19,7 @@ PROPS["C02"] = dict(
     verus=["c02_anchor", "c02_dispatch", "c02_matchers", "c02_regex", "c11_pattern_block"],
     labels=["C02."] + MASK,
     kani=[],
-    witness=["c02_remainder.rs"],
+    witness=["c02_remainder.rs", "c02_case.rs"],
     trusted=["memchr::memmem::find = first occurrence (shim)", "str::starts_with/ends_with/contains byte-level axioms (&str and ASCII char patterns)",
              "UTF-8 facts stated as axioms: injectivity, both ends of a string are character boundaries, an occurrence of one string in another ends on a character boundary",
              "vstd's prophetic iterator model for ExactSizeIterator::len and Iterator::any over the rule's pattern iterator",
@@ -40,8 +40,8 @@ PROPS["C02"] = dict(
 
 PROPS["C03"] = dict(
     level="proof",
-    verus=["c02_dispatch", "c03_parse_mask", "c03_apply_options", "c03_option_text", "c03_check_options", "c05_optimizer", "c06_matches", "c04_precedence"],
-    labels=["C03.", "C05.select.", "C04.check.unsupported"] + MASK,
+    verus=["c02_dispatch", "c03_parse_mask", "c03_apply_options", "c03_option_text", "c03_check_options", "c05_optimizer", "c06_matches", "c04_precedence", "c12_request", "c12_classify"],
+    labels=["C03.", "C05.select.", "C04.check.unsupported", "C12.new.third_party", "C12.new.classify", "C12.preparsed.", "C12.classify."] + MASK,
     kani=[KaniSet("src/filters/network_matchers.rs", "c03_options.rs", [
         Harness("c03_options_nodomain", "C03.options.nodomain", "C", "full domain: 2^32 masks x 17 request types x scheme x party; loop-free"),
         Harness("c03_type_bit", "C03.type_bit", "C", "all 17 request types"),
@@ -99,6 +99,7 @@ PROPS["C07"] = dict(
     verus=["c01_lookup", "c04_partition", "c04_precedence", "c10_engine", "c05_optimizer", "c03_apply_options", "c08_wire"],
     labels=["C07.", "C05.key.", "C01.check", "C03.apply_options.", "C08.wire.roundtrip_fields", "C08.wire.ser_fields", "C08.wire.de_fields", "C04.check.important", "C04.check.matched", "C04.check.exception", "C04.new.importants", "C04.new.exceptions", "C04.new.tagged", "C04.new.csp"] + MASK,
     kani=[],
+    witness=["c07_tags.rs"],
     trusted=["R6: the filter/clone iterator chain in tags_with_set computes the stated sub-sequence",
              "enable_tags/disable_tags set algebra (iterator chains) not under contract",
              "String obeys the hash key model (vstd axiom)"],
@@ -192,9 +193,10 @@ PROPS["C18"] = dict(
 
 PROPS["C05"] = dict(
     level="proof",
-    verus=["c05_optimizer", "c05_grouping", "c09_list_optimize", "c04_partition", "c02_regex"],
-    labels=["C05.", "C02.regex.", "C09.list_optimize."] + MASK,
+    verus=["c05_optimizer", "c05_grouping", "c09_list_optimize", "c04_partition", "c02_regex", "c02_matchers"],
+    labels=["C05.", "C02.regex.", "C09.list_optimize.", "C02.match."] + MASK,
     kani=[],
+    witness=["c05_equiv.rs"],
     trusted=["core::fmt: for a fixed format string the key is an injective function of the formatted arguments (R6 lift of format!)",
              "Iterator::any/all over a slice (vf_iter shim)", "raw_line join (debug text only)",
              "NetworkFilterList::optimize bucket rewrite: unit c09_list_optimize (drain / Arc::try_unwrap / collect lifted, R5/R6)",
